@@ -16,6 +16,7 @@ import (
 	networking "k8s.io/api/networking/v1"
 	"k8s.io/apimachinery/pkg/apis/meta/v1/unstructured"
 	"k8s.io/apimachinery/pkg/util/wait"
+	"k8s.io/client-go/tools/cache"
 	"k8s.io/client-go/util/workqueue"
 )
 
@@ -54,6 +55,11 @@ func (tq *taskQueue) Enqueue(obj interface{}) {
 	if err != nil {
 		nl.Debugf(tq.logger, "Couldn't get key for object %v: %v", obj, err)
 		return
+	}
+
+	// a delete that the watch missed arrives as a tombstone: the task is about the object it wraps
+	if deletedState, ok := obj.(cache.DeletedFinalStateUnknown); ok {
+		obj = deletedState.Obj
 	}
 
 	task, err := newTask(key, obj)
